@@ -61,6 +61,17 @@ class Interp(object):
         self.ids = [dict() for _ in self.zoo.cassettes]   # per cassette: id -> label
         self.maybe = [set() for _ in self.zoo.cassettes]   # per cassette: ids of saves that were cut short by a fault
         self.history = []
+        self._writers = {}
+
+    def writer(self, i, op):
+        """The cassette object a save goes through: the one lookups use, or (op['other']) a second object over the same
+        directory / bucket prefix, as when a recording service and a playback tool share the storage."""
+        cas = self.zoo.cassettes[i]
+        if not op.get('other'):
+            return cas
+        if i not in self._writers:
+            self._writers[i] = self.zoo.second_instance(cas)
+        return self._writers[i]
 
     def close(self):
         self.zoo.__exit__(None, None, None)
@@ -72,7 +83,8 @@ class Interp(object):
     def op_save(self, op):
         label = len(self.model)
         self.model.append((op['cat'], dict(op['meta'])))
-        for i, cas in enumerate(self.zoo.cassettes):
+        for i, _ in enumerate(self.zoo.cassettes):
+            cas = self.writer(i, op)
             rec = cas.create_new_recording(op['cat'])
             rec.set_data('k', label)
             md = dict(op['meta'])
@@ -92,7 +104,8 @@ class Interp(object):
         md = dict(md)
         md.update(op['meta'])
         self.model[label] = (cat, md)
-        for i, cas in enumerate(self.zoo.cassettes):
+        for i, _ in enumerate(self.zoo.cassettes):
+            cas = self.writer(i, op)
             rid = [r for r, l in self.ids[i].items() if l == label][0]
             rec = cas.get_recording(rid)
             rec.add_metadata(dict(op['meta']))
@@ -213,6 +226,7 @@ class Interp(object):
         self.ctx.case(self.history, nt, classes=(
             'via:%s' % via, 'limit:%s' % ('none' if limit is None else 'set'), 'random' if rnd else 'ordered',
             'after-resave' if getattr(self, 'resaves', 0) else 'no-resave',
+            'after-write-through-second-instance' if self._writers else 'single-instance',
             'unspecified' if unspecified else ('matches:%s' % ('none' if not expected else
                                                                   'all' if len(expected) == in_cat else 'some'))))
 
@@ -222,9 +236,9 @@ def make_machine(ctx):
         def make_interp(self):
             return Interp(ctx)
 
-        @rule(cat=st.sampled_from(CATEGORIES), meta=metas)
-        def save(self, cat, meta):
-            self.step({'op': 'save', 'cat': cat, 'meta': meta})
+        @rule(cat=st.sampled_from(CATEGORIES), meta=metas, other=st.sampled_from([False, False, True]))
+        def save(self, cat, meta, other):
+            self.step({'op': 'save', 'cat': cat, 'meta': meta, 'other': other})
 
         @rule(cat=st.sampled_from(CATEGORIES[:3]), meta=metas, k=st.sampled_from([1, 2]),
               kind=st.sampled_from(['crash', 'lost']))
@@ -232,9 +246,9 @@ def make_machine(ctx):
             self.step({'op': 'save_fault', 'cat': cat, 'meta': meta, 'k': k, 'kind': kind})
 
         @precondition(lambda self: self.interp.model)
-        @rule(n=st.integers(0, 40), meta=metas)
-        def resave(self, n, meta):
-            self.step({'op': 'resave', 'n': n, 'meta': meta})
+        @rule(n=st.integers(0, 40), meta=metas, other=st.booleans())
+        def resave(self, n, meta, other):
+            self.step({'op': 'resave', 'n': n, 'meta': meta, 'other': other})
 
         @rule(cat=st.sampled_from(CATEGORIES[:3]), meta=metas)
         def save_related(self, cat, meta):
